@@ -1,21 +1,27 @@
 #!/bin/bash
 # Must-fail self test: every patch under /verif/mutants/<id>/ and /verif/seeded/<id>/*/patch.diff
-# is applied to /repo, the property's quick check must exit 1 (VIOLATION), and the patch is reverted.
-# usage: tools/selftest.sh [property-id ...]
+# is applied to a scratch copy of /repo's working tree (under /dev/shm, removed afterwards), the
+# property's quick check must exit 1 (VIOLATION) on the copy, and the patch is reverted.
+# usage: tools/selftest.sh [property-id ...]       (SELFTEST_JOBS=n runs n properties in parallel)
 cd /verif
-if [ -n "$(git -C /repo status --porcelain --untracked-files=no)" ]; then echo "refusing: /repo has uncommitted changes"; exit 2; fi
 ids="$@"; [ -z "$ids" ] && ids=$(ls mutants seeded 2>/dev/null | grep '^C[0-9]' | sort -u)
-pass=0; fail=0
-for id in $ids; do
+one() {
+  id=$1
+  scratch=$(mktemp -d /dev/shm/selftest-$id-XXXX)
+  rsync -a --exclude .git --exclude node_modules /repo/ $scratch/
   for p in $(ls mutants/$id/*.patch seeded/$id/*/patch.diff 2>/dev/null); do
-    if ! git -C /repo apply --check /verif/$p 2>/dev/null; then echo "SKIP   $id $p (does not apply)"; continue; fi
-    git -C /repo apply /verif/$p
-    out=$(./bin/govc check --property $id --tier quick 2>&1); rc=$?
-    git -C /repo checkout -- . 
+    if ! (cd $scratch && git apply --check /verif/$p 2>/dev/null); then echo "SKIP   $id $p (does not apply)"; continue; fi
+    (cd $scratch && git apply /verif/$p)
+    out=$(GOVC_REPO=$scratch ./bin/govc check --property $id --tier quick 2>&1); rc=$?
+    (cd $scratch && git apply -R /verif/$p)
     if [ -f "$(dirname $p)/BENIGN" ] || [[ "$p" == *benign* ]]; then
-      if [ $rc -eq 0 ]; then pass=$((pass+1)); echo "QUIET  $id $p (benign edit, check stayed at exit 0)"; else fail=$((fail+1)); echo "FALSE-ALARM $id $p (exit $rc) :: $(echo "$out" | grep -m1 VIOLATION | cut -c1-160)"; fi
-    elif [ $rc -eq 1 ]; then pass=$((pass+1)); echo "CAUGHT $id $p :: $(echo "$out" | grep -m1 VIOLATION | sed 's/.*obligation=//' | cut -c1-110)"; else fail=$((fail+1)); echo "MISSED $id $p (exit $rc) :: $(echo "$out" | tail -1 | cut -c1-160)"; fi
+      if [ $rc -eq 0 ]; then echo "QUIET  $id $p (benign edit, check stayed at exit 0)"; else echo "FALSE-ALARM $id $p (exit $rc) :: $(echo "$out" | grep -m1 VIOLATION | cut -c1-160)"; fi
+    elif [ $rc -eq 1 ]; then echo "CAUGHT $id $p :: $(echo "$out" | grep -m1 VIOLATION | sed 's/.*obligation=//' | cut -c1-110)"; else echo "MISSED $id $p (exit $rc) :: $(echo "$out" | tail -1 | cut -c1-160)"; fi
   done
-done
-echo "selftest: caught=$pass missed=$fail"
-[ $fail -eq 0 ]
+  rm -rf $scratch
+}
+export -f one
+echo $ids | tr ' ' '\n' | xargs -P ${SELFTEST_JOBS:-3} -I{} bash -c 'one {}' | tee /dev/shm/selftest_run.log
+c=$(grep -c '^CAUGHT\|^QUIET' /dev/shm/selftest_run.log); m=$(grep -c '^MISSED\|^FALSE-ALARM' /dev/shm/selftest_run.log)
+echo "selftest: caught=$c missed=$m"
+[ "$m" -eq 0 ]
